@@ -28,6 +28,7 @@ tier: B
 bound: store of <= 3 entries before the call, keys of <= 2 characters over {a,b}, one put + one re-put + one delete
 unwind: 6
 backend: sat
+native: self
 funcs: spifconf_put_var, spifconf_get_var
 */
 /*@unit
@@ -66,7 +67,7 @@ funcs: spifconf_put_var, spifconf_free_var
 #include "vprelude.h"
 #include "env_expand.h"
 #include "expand.h"
-#include "src/conf.c"
+#include "rawsrc/conf.c"
 
 #ifdef U_NEW
 static spifconf_var_t *spifconf_new_var(void)
@@ -104,20 +105,23 @@ void harness(void)
 #endif
 
 #if defined(U_PUT_GET) || defined(U_PUT_LEAK)
-/* keys: "", "a", "b", "aa", "ab", "ba", "bb" — heap strings of <= 2 characters */
-static char *mk_key(void)
+/* keys: "a", "b", "aa", "ab", "ba", "bb" -- heap strings of <= 2 characters; values: one character.
+ * All nondeterministic inputs are taken in the harness through VND (native replay: native: self):
+ * slots 0..2 the store, slot 3 the key that is put, slot 4 another key. */
+static int w_k0[5], w_k1[5], w_v[5];
+#define PICK_SLOT(i) { w_k0[i] = (int) VND(int, k##i##a); w_k1[i] = (int) VND(int, k##i##b); w_v[i] = (int) VND(int, v##i); \
+    __CPROVER_assume((w_k0[i] == 'a' || w_k0[i] == 'b') && (w_k1[i] == 0 || w_k1[i] == 'a' || w_k1[i] == 'b') && w_v[i] >= 0 && w_v[i] < 128); }
+#define PICK_SLOTS() { PICK_SLOT(0) PICK_SLOT(1) PICK_SLOT(2) PICK_SLOT(3) PICK_SLOT(4) }
+static char *mk_key(int i)
 {
     char *k = malloc(3);
-    char c0 = nondet_char(), c1 = nondet_char();
-    __CPROVER_assume(c0 == 'a' || c0 == 'b');
-    __CPROVER_assume(c1 == 0 || c1 == 'a' || c1 == 'b');
-    k[0] = c0; k[1] = c1; k[2] = 0;
+    k[0] = (char) w_k0[i]; k[1] = (char) w_k1[i]; k[2] = 0;
     return k;
 }
-static char *mk_val(void)
+static char *mk_val(int i)
 {
     char *v = malloc(2);
-    v[0] = nondet_char(); v[1] = 0;
+    v[0] = (char) w_v[i]; v[1] = 0;
     return v;
 }
 static int key_lt(const char *a, const char *b)   /* reference order: byte-wise, shorter first */
@@ -127,20 +131,20 @@ static int key_lt(const char *a, const char *b)   /* reference order: byte-wise,
 }
 static int key_eq(const char *a, const char *b) { return a[0] == b[0] && a[1] == b[1]; }
 
-static unsigned build_store(void)
+static unsigned build_store(unsigned n)           /* n <= 3 entries from slots 0..n-1, strictly ascending */
 {
-    unsigned n = nondet_uint(), i;
+    unsigned i;
     spifconf_var_t *prev = NULL;
-    __CPROVER_assume(n <= 3);
     spifconf_vars = NULL;
     for (i = 0; i < n; i++) {
         spifconf_var_t *v = malloc(sizeof(spifconf_var_t));
-        v->var = mk_key(); v->value = mk_val(); v->next = NULL;
+        v->var = mk_key((int) i); v->value = mk_val((int) i); v->next = NULL;
         if (prev) { __CPROVER_assume(key_lt(prev->var, v->var)); prev->next = v; } else { spifconf_vars = v; }
         prev = v;
     }
     return n;
 }
+#define PICK_N() ({ unsigned vq_n = (unsigned) VND(uint, n); __CPROVER_assume(vq_n <= 3); vq_n; })
 /* reference lookup, independent of the code under test */
 static char *ref_get(const char *k)
 {
@@ -163,10 +167,14 @@ static unsigned store_len_sorted(void)
 #ifdef U_PUT_GET
 void harness(void)
 {
-    unsigned n = build_store(), n1, n2, n3;
-    char *k = mk_key(), *v = mk_val();
-    char *other = mk_key();
-    char probe[3] = { k[0], k[1], 0 };
+    unsigned n, n1, n2, n3;
+    char *k, *v, *other;
+    char probe[3];
+    PICK_SLOTS();
+    n = build_store(PICK_N());
+    k = mk_key(3); v = mk_val(3);
+    other = mk_key(4);
+    probe[0] = k[0]; probe[1] = k[1]; probe[2] = 0;
     __CPROVER_assume(!key_eq(other, probe));
     char *other_before = ref_get(other);
     int present = ref_get(probe) != NULL;
@@ -178,7 +186,7 @@ void harness(void)
     __CPROVER_assert(ref_get(probe) == v, "put: the value is stored under exactly this name");
     __CPROVER_assert(spifconf_get_var(other) == other_before, "put leaves every other name alone");
 
-    char *k2 = malloc(3), *v2 = mk_val();                    /* put again */
+    char *k2 = malloc(3), *v2 = mk_val(4);                   /* put again */
     k2[0] = probe[0]; k2[1] = probe[1]; k2[2] = 0;
     spifconf_put_var(k2, v2);
     n2 = store_len_sorted();
@@ -202,14 +210,18 @@ void harness(void)
  * nothing): whatever it does not store it has to release. */
 void harness(void)
 {
-    unsigned n = build_store();
-    char *k = mk_key(), *v;
-    char probe[3] = { k[0], k[1], 0 };
+    unsigned n;
+    char *k, *v;
+    char probe[3];
     spifconf_var_t *p, *q;
+    PICK_SLOTS();
+    n = build_store(PICK_N());
+    k = mk_key(3);
+    probe[0] = k[0]; probe[1] = k[1]; probe[2] = 0;
 #if defined(L_INSERT)
-    v = mk_val(); __CPROVER_assume(ref_get(probe) == NULL);
+    v = mk_val(3); __CPROVER_assume(ref_get(probe) == NULL);
 #elif defined(L_REPLACE)
-    v = mk_val(); __CPROVER_assume(ref_get(probe) != NULL);
+    v = mk_val(3); __CPROVER_assume(ref_get(probe) != NULL);
 #else
     v = NULL;
 #endif
